@@ -52,6 +52,8 @@ def main():
         th = r.get(prop + ":thorough")
         if verdict != "DETECTED" and th:
             extra = f" (thorough: {th.get('verdict')})"
+        if verdict != "DETECTED" and meta.get("superseded_by_fix"):
+            extra += " - superseded: " + meta["superseded_by_fix"].split(":")[0].split(" ")[0] + " repaired the defect this change exposed; its demonstration passes on the repaired tree"
         sigs = "; ".join(f"`{s[:90]}`" for s in cell.get("signatures", [])[:3])
         tot += 1
         det += verdict == "DETECTED"
